@@ -27,6 +27,8 @@ TNext ==
        [] e.ev \in {"Write", "Flush", "Close"} -> Call(e) /\ viol' = Note(Failed(e))
        [] e.ev = "Cmp"   -> UNCHANGED cvars /\ viol' = Note(CmpFailed(e))
        [] e.ev = "Ctor"  -> UNCHANGED cvars /\ viol' = Note(CtorFailed(e))
+       \* the worker process died or hung inside this case (recorded by the driver)
+       [] e.ev \in {"Crash", "Hang"} -> UNCHANGED cvars /\ viol' = Note({"C16.nopanic", "C14.nopanic_on_failure", "C01.nocrash"})
 
 TSpec == TInit /\ [][TNext]_tvars
 
